@@ -312,6 +312,7 @@ def run(ctx):
     ctx.floor(R8, n_keys, 8, 'key lists handed to DataValue-keyed join executors')
     outer_sides_are_read(ctx, prog)
     agg_combinators_cover_the_kernels(ctx, prog)
+    first_last_agree(ctx, prog)
 
 
 def outer_sides_are_read(ctx, prog):
@@ -467,3 +468,51 @@ def agg_combinators_cover_the_kernels(ctx, prog):
                what=f'SUM over a {v} column: the chunk kernel sums it, the value-wise addition panics (invalid operation: {v}(..) add {v}(..)): '
                     '`select sum(k) from s` works on one chunk, `select g, sum(k) .. group by g` and the same sum over two chunks fail')
     ctx.floor(R10, len(summed), 3, 'array types with a SUM kernel')
+
+
+def first_last_agree(ctx, prog):
+    """C11-R11: FIRST / LAST mean the same chunk by chunk and row by row"""
+    R11 = 'C11-R11'
+    ctx.rule(R11, 'first(x) / last(x) are computed three ways - by the chunk kernels ArrayImpl::first / last, by the chunk-wise combination in '
+                  'Evaluator::eval_agg (simple aggregate) and by the row-wise transition in Evaluator::agg_append (hash / sort aggregates). Each '
+                  'either takes the element whatever it is ("element": Option::flatten after next(), no `or` with the state) or the first / last '
+                  'NON-NULL value ("non-null": Iterator::flatten before next(), an `or` with the state). For one aggregate all places must make '
+                  'the same choice, otherwise the answer depends on the executor and on how the input is cut into chunks')
+
+    def arm_has_or(body, variant):
+        for i_, bl_ in enumerate(body.blocks):
+            t_ = bl_['term']
+            if t_['k'] == 'switch' and t_.get('adt') == 'planner::Expr' and not bl_['cleanup']:
+                arms_ = {t_['variants'][str(v)]: tgt for v, tgt in t_['targets']}
+                if variant in arms_:
+                    others = {x for x in arms_.values() if x != arms_[variant]} | {i_}
+                    reg = body.reachable_from([arms_[variant]], avoid=others)
+                    return any(c.bb in reg and (c.fn or '').endswith('Ext::or') for c in body.calls), arms_[variant]
+        return None, None
+    ea = next((x for nme, x in prog.bodies.items() if nme.endswith("Evaluator::<'a>::eval_agg")), None)
+    aa = next((x for nme, x in prog.bodies.items() if nme.endswith("Evaluator::<'a>::agg_append")), None)
+    if not (ctx.anchor(R11, 'Evaluator::eval_agg', ea is not None) and ctx.anchor(R11, 'Evaluator::agg_append', aa is not None)):
+        return
+    n = 0
+    for agg, fn_ in (('First', 'first'), ('Last', 'last')):
+        b = prog.body(f'array::ops::<impl array::ArrayImpl>::{fn_}')
+        if not ctx.anchor(R11, f'ArrayImpl::{fn_}', b is not None):
+            continue
+        it_flat = any(re.search(r'iter::Iterator::flatten$', c.fn or '') for c in b.calls)
+        opt_flat = any(re.search(r'Option::<.*>::flatten$', c.name or '') for c in b.calls)
+        if not ctx.anchor(R11, f'ArrayImpl::{fn_}: flatten', it_flat != opt_flat):
+            continue
+        styles = {'chunk kernel': 'non-null' if it_flat else 'element'}
+        o1, _ = arm_has_or(ea, agg)
+        o2, at = arm_has_or(aa, agg)
+        if not ctx.anchor(R11, f'arms of {agg} in eval_agg / agg_append', o1 is not None and o2 is not None):
+            continue
+        styles['chunk-wise combination'] = 'non-null' if o1 else 'element'
+        styles['row-wise transition'] = 'non-null' if o2 else 'element'
+        n += 3
+        ctx.functions_analysed.update([b.name, ea.name, aa.name])
+        ctx.ob(R11, f'{agg}·one-meaning-in-all-three-places', len(set(styles.values())) == 1,
+               f'{agg}: {styles}', [b.loc, site(aa, at)],
+               what=f'{fn_}(x) does not mean the same everywhere ({styles}): the simple aggregate and the hash / sort aggregates answer differently '
+                    'when the column holds NULLs, or when the input arrives in more than one chunk')
+    ctx.floor(R11, n, 6, 'places that compute FIRST / LAST')
